@@ -26,7 +26,7 @@ CLASSES = {
     "C13": {"lists-overlap", "list-too-early", "list-before-consumed-plus-period", "relisting-stopped", "close-hangs", "shutdown-timeout", "goroutine-leak"},
     "C14": {"list-failure-not-fatal", "stopped-without-cause", "failure-not-reported", "ready-after-failed-first-list",
             "deliberate-close-reports-failure", "shutdown-timeout", "close-hangs"},
-    "C05": ORDER | {"cache-older-than-event", "ctl-events-differ", "drop-not-full", "drop-unknown"},
+    "C05": ORDER | {"tree-log-differs", "cache-older-than-event", "ctl-events-differ", "drop-not-full", "drop-unknown"},
     "C06": KERNEL | {"refilter-lost", "filter-not-quiescent", "filter-not-set", "fsub-events-differ", "fsub-emits-other", "events-not-emitted", "runaway-goroutine",
                      "sync-list-not-parent-listing", "list-not-snapshot", "lost-at-quiescence", "stuck-at-quiescence", "order", "recv-unexplained"},
     "C07": KERNEL | {"refilter-lost", "equal-filters-differ", "fsub-events-differ", "fsub-emits-other", "events-not-emitted", "runaway-goroutine", "filter-not-quiescent", "filter-not-set",
@@ -35,8 +35,8 @@ CLASSES = {
             "ready-unsynced", "ready-with-wrong-filter", "ready-twice", "event-before-ready", "emit-before-ready", "ready-observed-not-declared", "list-not-snapshot",
             "callback-before-ready", "flag-mismatch"},
     "C10": ORDER | {"drop-not-full", "drop-unknown", "cache-not-current", "filter-not-quiescent", "list-not-snapshot", "fsub-emits-other", "events-not-emitted", "runaway-goroutine", "close-hangs", "shutdown-timeout", "api-call-blocks"},
-    "C11": {"stopped-outside-closed-subtree", "cascade-incomplete", "shutdown-timeout", "closed-before-drained", "close-hangs", "api-call-blocks", "goroutine-leak", "runaway-goroutine"} | ORDER,
-    "C12": {"goroutine-leak", "shutdown-timeout", "close-hangs", "call-blocks-after-done", "call-fails-after-done", "closed-before-drained", "api-call-blocks",
+    "C11": {"tree-done-differs", "tree-log-differs", "stopped-outside-closed-subtree", "cascade-incomplete", "shutdown-timeout", "closed-before-drained", "close-hangs", "api-call-blocks", "goroutine-leak", "runaway-goroutine"} | ORDER,
+    "C12": {"tree-errs-differ", "tree-done-differs", "goroutine-leak", "shutdown-timeout", "close-hangs", "call-blocks-after-done", "call-fails-after-done", "closed-before-drained", "api-call-blocks",
             "racing-call-zombie", "runaway-goroutine"},
     "C16": {"monitor-history-not-allowed", "modesmon-error", "callbacks-overlap", "initialize-not-first-or-twice", "callback-before-ready", "callback-after-done", "initialize-not-cache-content",
             "callback-before-initialize", "callback-not-next-event", "callback-of-unknown-monitor", "stuck-at-quiescence", "monitor-not-initialized"},
@@ -229,12 +229,19 @@ def check_tree(prop, tier, replay):
         nscen += js["scenarios"]
     modes = None
     modesmon = None
+    modestree = None
     if prop in ("C06", "C07", "C08"):
         # spec -> code: every stimulus order enumerated by TLC, replayed on the real filterSubscription
         modes = run_modes(res, tier, MODES_CLASSES | {"crash"})
         nscen += modes["orders"]
         mdist += modes["states"]
         mgen += modes["generated"]
+    if prop in ("C05", "C11", "C12"):
+        # spec -> code: every order of emit / subscribe / clone / close / root stop replayed on real publishers and subscriptions
+        modestree = run_modes_tree(res, tier, {"C05": {"tree-log-differs"}, "C11": {"tree-done-differs", "tree-log-differs"}, "C12": {"tree-errs-differ", "tree-done-differs"}}[prop] | {"crash"})
+        nscen += modestree["orders"]
+        mdist += modestree["states"]
+        mgen += modestree["generated"]
     if prop == "C08":
         # unbounded counterpart of ReadyImpliesParent / SilentBeforeReady (any universe, any number of mutations and refilters)
         mnames = mnames + [vlib.prove("FilterNodeProofs")]
@@ -274,6 +281,7 @@ def check_tree(prop, tier, replay):
         "trace_line_kinds_seen": allcls.get("__kinds__", {}),
         "trace_line_kinds_never_seen_in_this_run": sorted(k for k, v in allcls.get("__kinds__", {}).items() if v == 0),
         "mode_s_monitor": modesmon,
+        "mode_s_tree": modestree,
         "mode_s": None if modes is None else {"stimulus_orders_replayed": modes["orders"], "max_length": modes["maxlen"], "exhaustive": True, "sample": modes["samples"][:1]},
     }
     res.assumptions = [
@@ -346,6 +354,66 @@ def run_modes_mon(res, tier, want):
                 sample = _json.loads(ls[len(ls) // 2])
     log("mode S (monitor): %d replays of %d stimulus orders (length <= %d; %d orders with more than one allowed history)" % (total, len(beh), n, multi))
     return {"orders": len(beh), "replays": total, "maxlen": n, "states": states, "generated": gen, "orders_with_choice": multi, "sample": sample}
+
+
+def run_modes_tree(res, tier, want):
+    """Spec -> code for the pub/sub tree: TLC enumerates every order of {emit, subscribe, clone, close, root stop} (ModeSTree.tla)
+    with the predicted observation after every stimulus; the harness replays each order on real publishers and subscriptions."""
+    import json as _json
+    sc = vlib.scratch()
+    h = vlib.build_harness()
+    n = 4 if tier == "quick" else 5
+    rc, out = vlib.run_tlc("ModeSTree.tla", open(os.path.join(vlib.SPEC, "cfg", "ModeSTree-%d.cfg" % n)).read(), workers=4, heap="6g", timeout=1800)
+    if rc != 0 or "No error has been found" not in out:
+        raise Inconclusive("ModeSTree.tla (%d): the model is refuted or TLC failed: %s" % (n, out[-2000:]))
+    gen, states = vlib.tlc_stats(out)
+    bf = os.path.join(sc, "treebeh.ndjson")
+    nb = 0
+    with open(bf, "w") as f:
+        for m in re.finditer(r'<<"BEH", (".*")>>', out):
+            f.write(_json.loads(m.group(1)) + "\n")
+            nb += 1
+    if nb != 8 ** n:
+        raise Inconclusive("ModeSTree.tla printed %d behaviours, expected %d" % (nb, 8 ** n))
+    nsh = 16
+    cmds, outs = [], []
+    for s_ in range(nsh):
+        o = os.path.join(sc, "modestree-%d.ndjson" % s_)
+        outs.append(o)
+        cmds.append(([h, "modestree", "-in", bf, "-out", o, "-shards", str(nsh), "-shard", str(s_)], o + ".log", None))
+    rcs = vlib.run_parallel(cmds, timeout=2400, maxpar=16)
+    good = []
+    for rc2, o in zip(rcs, outs):
+        lg = open(o + ".log").read()
+        if rc2 != 0:
+            if "panic" in lg or "fatal error" in lg:
+                res.classify("crash", "modestree driver died: " + lg[:1500])
+                continue
+            raise Inconclusive("modestree driver failed: " + lg[-500:])
+        good.append(o)
+    dj = vlib.tlc_dir(None)
+    cfgp = os.path.join(dj, "m.cfg")
+    open(cfgp, "w").write(MODES_CFG)
+    tl = [(vlib.tlc_argv(dj, "ModeSTreeRecords.tla", cfgp, workers=1, heap="2g", procs=2), o + ".tlc", {"VT_TRACE": o}, dj) for o in good]
+    rcs = vlib.run_parallel(tl, timeout=1800, maxpar=8)
+    total = 0
+    sample = None
+    for rc3, o in zip(rcs, good):
+        outj = open(o + ".tlc").read()
+        nrec = sum(1 for _ in open(o))
+        m = re.search(r'<<"CONSUMED", (\d+)>>', outj)
+        if rc3 != 0 or not m or int(m.group(1)) != nrec:
+            raise Inconclusive("TLC did not consume %s: %s" % (o, outj[-1500:]))
+        total += nrec
+        for (ln, cls, txt) in vlib.verdicts(outj):
+            if cls in want:
+                res.classify(cls, txt, artefact={"file": os.path.basename(o), "line": ln})
+        if sample is None:
+            with open(o) as fh:
+                ls = fh.readlines()
+                sample = _json.loads(ls[len(ls) // 2])
+    log("mode S (tree): %d stimulus orders of length %d (all shorter ones are their prefixes) replayed on real publishers and subscriptions" % (total, n))
+    return {"orders": total, "maxlen": n, "states": states, "generated": gen, "sample": sample}
 
 
 MODES_CLASSES = {"modes-exists", "ready-too-early", "not-ready", "content-differs", "event-before-ready", "events-differ"}
